@@ -169,17 +169,21 @@ def r15_3(ctx, R, counter):
     }
     for ty, want in table.items():
         obs = {}
+        allobs = {}
         for b in ctx.facts.fn_bodies():
-            m = re.match(r"^(?:<)?%s(?:::<\w+>|<\w+> as futures_core::FusedStream>)::(len|is_empty|is_terminated)$" % re.escape(ty), b.path)
+            # inherent or trait-provided (FusedStream / any other trait): every function of that name on the type counts -- an
+            # inherent method shadows the trait's
+            m = re.match(r"^(?:<)?%s(?:::<\w+>|<\w+> as [\w:]+>)::(len|is_empty|is_terminated)$" % re.escape(ty), b.path)
             if m:
                 obs[m.group(1)] = (b, state_set(ctx, b, counter, rem_fields))
+                allobs.setdefault(m.group(1), []).append((b, obs[m.group(1)][1]))
         for nm in ("len", "is_empty", "is_terminated"):
             if nm not in obs:
                 ctx.ob("R15.3", ty, "observer-present:" + nm, False, "", "")
                 continue
-            b, s = obs[nm]
             alt = {("running" if x == "remaining" else x) for x in want}   # summing the groups' own counters is as good
-            ctx.ob("R15.3", b, "observer-reads:%s" % ",".join(sorted(want)), s == want or s == alt, d_loc(b), "reads %s" % sorted(s))
+            for b, s in allobs[nm]:
+                ctx.ob("R15.3", b, "observer-reads:%s" % ",".join(sorted(want)), s == want or s == alt, d_loc(b), "reads %s" % sorted(s))
         if "heap" in want and "len" in obs:
             b = obs["len"][0]
             e = c16._norm(ctx.flow(b).local_expr(0))
@@ -345,6 +349,9 @@ def run(ctx):
     r15_4(ctx, R, head)
     c02.r2_6(ctx, R)
     ctx.rule("R2.6", "see C02 R2.6 (shared): unbounded push performs exactly one insertion on every path")
+    c02.r2_2(ctx, R)
+    ctx.rule("R2.2", "see C02 R2.2 (shared): slots are vacated only by callers of the drain -- anything else (an unwind guard, a clear) "
+                     "changes len() without an output having been yielded")
     import c17
     c17.r17_3(ctx, R)
     ctx.rule("R17.3", "see C17 R17.3 (shared): size_hint of every collection is (len(), Some(len())) -- the fourth observer agrees "
